@@ -148,6 +148,7 @@ def _build_opus_compare():
     return exe
 
 
+BUDGET_PACKETS = os.path.join(common.VERIF, 'tools', 'c03_budget_packets.txt')
 WRAP_BUDGET = ['-Wl,--wrap=quant_all_bands,--wrap=ec_dec_uint,--wrap=celt_decode_with_ec_dred']
 WRAP_SYNTH = ['-Wl,' + ','.join('--wrap=' + x for x in ('quant_all_bands', 'ec_dec_uint', 'celt_decode_with_ec_dred', 'ec_dec_bit_logp',
                                                           'ec_dec_bits', 'ec_dec_icdf', 'ec_decode_bin', 'ec_decode', 'ec_dec_update'))]
@@ -161,6 +162,18 @@ def budget_search(ctx):
             ('enc', [hb, 'scan', str(ctx.seed), '100000' if q else '2000000', '0', 'enc']),
             ('synth', [hs, str(ctx.seed), '60' if q else '1500', '600' if q else '1500'])]
     res = {'frames': 0, 'wit': [], 'lines': []}
+    # committed packets that were found to take the exit: replayed on the tree under test
+    if os.path.exists(BUDGET_PACKETS):
+        lines = [l.strip() for l in open(BUDGET_PACKETS) if l.startswith('silksyms packet ')]
+        rc, out = common.sh([_harness(ctx, 'plain'), 'stdin'], input='\n'.join(lines) + '\n')
+        ans = [l[2:] for l in out.split('\n') if l.startswith('O ')]
+        nerr = 0
+        for i, l in enumerate(lines):
+            a = ans[i] if i < len(ans) else '(no answer)'
+            if not a.startswith('OK'):
+                nerr += 1
+                res['wit'].append(_budget_witness(l, 'opus_decode returns %s' % a[:60]))
+        res['lines'].append('committed budget packets: %d replayed, %d return an error' % (len(lines), nerr))
     import concurrent.futures as cf
     with cf.ThreadPoolExecutor(3) as ex:
         outs = list(ex.map(lambda r: common.sh(r[1], None, 3000), runs))
@@ -175,12 +188,17 @@ def budget_search(ctx):
         for l in out.splitlines():
             if l.startswith('W '):
                 mm = re.search(r'ch=(\d) .*pkt=(x[0-9a-f]+)', l)
-                res['wit'].append({'suite': 'silksyms', 'input': 'silksyms packet 48000 %s 0 0 %s' % (mm.group(1), mm.group(2)) if mm else l,
-                                   'expected': 'opus_decode never returns OPUS_INTERNAL_ERROR; ec_tell(dec) <= 8*len at the end of a CELT frame',
-                                   'observed': l[2:200],
-                                   'why': 'a CELT frame drove the range decoder past its bit budget: celt_decode_with_ec takes the '
-                                          '`ec_tell(dec) > 8*len` exit and opus_decode returns OPUS_INTERNAL_ERROR'})
+                res['wit'].append(_budget_witness('silksyms packet 48000 %s 0 0 %s' % (mm.group(1), mm.group(2)) if mm else l, l[2:200]))
     return res
+
+
+def _budget_witness(inp, observed):
+    return {'suite': 'silksyms-budget', 'input': inp,
+            'expected': 'opus_decode never returns OPUS_INTERNAL_ERROR on a packet; ec_tell(dec) <= 8*len at the end of a CELT frame',
+            'observed': observed,
+            'why': 'a CELT frame drives the range decoder past its bit budget (cached PVQ costs under-state the coded cost of '
+                   'ec_dec_uint for (N,K) = (16,5) and (12,15)): celt_decode_with_ec takes the `ec_tell(dec) > 8*len` exit and '
+                   'opus_decode returns OPUS_INTERNAL_ERROR instead of audio'}
 
 
 def corpus_check(ctx, h, collect=False):
@@ -378,6 +396,17 @@ def replay(ctx, obj):
     impl = [l[2:] for l in out.split('\n') if l.startswith('O ')]
     model = common.model_eval(lines)
     bad = 0
+    if obj.get('suite') == 'silksyms-budget':
+        bad = 0
+        for i, l in enumerate(lines):
+            a = impl[i] if i < len(impl) else '(no answer)'
+            print('input: %s\n  opus_decode: %s\n  reference symbol layer: %s' % (l[:200], a[:80], (model[i] if i < len(model) else '')[-60:]))
+            bad += 0 if a.startswith('OK') else 1
+        if bad:
+            print('VIOLATION property=C03 replay reproduced (%d of %d packets make opus_decode return an error)' % (bad, len(lines)))
+            return 1
+        print('replay: opus_decode returns audio for the recorded packet(s)')
+        return 0
     for i, l in enumerate(lines):
         a = impl[i] if i < len(impl) else '(no answer)'
         mdl = model[i] if i < len(model) else ''
